@@ -1,4 +1,8 @@
 import Qhttp.Model.Life
+import Qhttp.Lemmas.C10Sock
+import Qhttp.Lemmas.C10Life
+import Qhttp.Lemmas.C10Copy
+import Qhttp.Lemmas.C10Dc
 /-
   C10 — connections never outlive their peer and ending one never crashes (partial: the
   ownership protocol is modelled and proved; memory errors are observed with sanitizers).
@@ -15,5 +19,451 @@ def fdOf (obs : List Obs) : Option Nat :=
     then no per-connection object and no descriptor is left, and nothing crashed on the way -/
 def holds (obs : List Obs) : Bool :=
   !obs.any Obs.isCrash && liveOf obs == some 0 && fdOf obs == some 0
+
+end Qhttp.C10
+
+/-! ## Theorems
+
+  Model-level counterpart of C10 (the claim is PARTIAL: memory errors are observed by the
+  sanitizers, the ownership protocol below is proved).  Everything is for every `Env`, every
+  file-system environment, every application where the socket model alone is concerned, and
+  every (unbounded) event sequence.
+-/
+
+namespace Qhttp.C10
+open Qhttp Qhttp.C10L
+
+/-! ### 1. a destroyed socket is inert (no use after free at model level) -/
+
+/-- every entry point of the socket model is a no-op on a destroyed object -/
+theorem dead_is_inert (env : Env) (app : App) (s : Sock) (h : s.alive = false) :
+    (∀ e, Sock.step env app s e = s) ∧ (∀ op, Sock.apiPrim env s op = s) ∧
+    (s.dcFlag = false → ∀ op, Sock.api env app s op = s) :=
+  ⟨fun e => step_dead env app s e h, fun op => apiPrim_dead env s op h,
+   fun hf op => api_dead env app s op h hf⟩
+
+/-- the side condition of `dead_is_inert` for `api`: the "disconnected is due" flag is never left
+    set — `api` and `emitDc` always clear it, an external event keeps it clear -/
+theorem dcFlag_clear (env : Env) (app : App) (s : Sock) :
+    (∀ op, (Sock.api env app s op).dcFlag = false) ∧ (Sock.emitDc env app s).dcFlag = false ∧
+    (∀ e, s.dcFlag = false → (Sock.step env app s e).dcFlag = false) := by
+  refine ⟨fun op => (api_ext env app s op).2, (emitDc_ext env app s).2.1, fun e hf => ?_⟩
+  cases ha : s.alive
+  · rw [step_dead env app s e ha]; exact hf
+  · by_cases he : e = .turn
+    · subst he
+      rw [step_turn env app s ha]
+      exact (reap_evo _).df ((initRead_extE env app s).2 hf)
+    · exact (step_extE env app s e he).2 hf
+
+/-- hence on every run of the socket model, for every application -/
+theorem dcFlag_clear_run (env : Env) (app : App) (evs : List Event) :
+    (Sock.run env app evs).dcFlag = false := by
+  have key : ∀ (evs : List Event) (sk : Sock × Nat), sk.1.dcFlag = false →
+      (evs.foldl (Sock.stepK env app) sk).1.dcFlag = false := by
+    intro evs
+    induction evs with
+    | nil => exact fun _ h => h
+    | cons e evs ih =>
+      intro sk h
+      apply ih
+      unfold Sock.stepK
+      apply (dcFlag_clear env app _).2.2
+      split
+      · exact h
+      · exact h
+  exact key evs _ rfl
+
+/-- the composed models: no event changes anything once the socket is destroyed
+    (`FsHandler.turn` included: it returns its argument) -/
+theorem dead_is_inert_fs (env : Env) (fe : FsHandler.FsEnv) (st : FsHandler.St) (e : Event)
+    (h : st.sock.alive = false) : FsHandler.step env fe st e = st :=
+  fsStep_dead env fe st e h
+
+theorem dead_is_inert_life (env : Env) (fe : FsHandler.FsEnv) (st : Life.St) (e : Event)
+    (h : st.fs.sock.alive = false) : Life.step env fe st (.ev e) = st :=
+  lifeStep_dead env fe st e h
+
+/-- destroyed is for ever: no step of the composed model resurrects the socket -/
+theorem dead_stays_dead (env : Env) (fe : FsHandler.FsEnv) (st : Life.St) (ev : Life.LEv)
+    (h : st.fs.sock.alive = false) : (Life.step env fe st ev).fs.sock.alive = false := by
+  cases hx : (Life.step env fe st ev).fs.sock.alive
+  · rfl
+  · have := (lifeStep_evo env fe st ev).al hx
+    rw [h] at this
+    exact absurd this (by simp)
+
+/-- in every reachable state the flag is clear, so API calls on a destroyed socket are no-ops
+    without side condition -/
+theorem dead_is_inert_reachable (env : Env) (fe : FsHandler.FsEnv) (evs : List Life.LEv) (op : ApiOp)
+    (h : (Life.run env fe evs).fs.sock.alive = false) :
+    Sock.api env (FsHandler.app fe) (Life.run env fe evs).fs.sock op = (Life.run env fe evs).fs.sock :=
+  api_dead env _ _ op h (run_inv env fe evs).df
+
+/-! ### 2. `disconnected` schedules the deletion, and nothing but the event loop consumes it -/
+
+/-- an event during which the transport reported `disconnected` leaves the deletion scheduled
+    (if the socket is still there) -/
+theorem dc_schedules_deletion (env : Env) (fe : FsHandler.FsEnv) (st : Life.St) (e : Event)
+    (ha : (Life.step env fe st (.ev e)).fs.sock.alive = true)
+    (hdc : Life.dcCount (Life.step env fe st (.ev e)).fs.sock ≠ Life.dcCount st.fs.sock) :
+    (Life.step env fe st (.ev e)).fs.sock.delPending = true :=
+  lifeStep_schedules env fe st e ha hdc
+
+/-- API calls, transport events and the copier's relayed calls never clear `delPending`
+    (nor destroy, nor resurrect the object) -/
+theorem delPending_mono (env : Env) (app : App) (s : Sock) (h : s.delPending = true) :
+    (∀ op, (Sock.api env app s op).delPending = true) ∧
+    (∀ e, e ≠ .turn → (Sock.step env app s e).delPending = true) ∧
+    (∀ l, (FsHandler.relay env app s l).delPending = true) :=
+  ⟨fun op => (api_ext env app s op).1.dp h, fun e he => (step_extE env app s e he).1.dp h,
+   fun l => (relay_extE env app l s).1.dp h⟩
+
+theorem alive_const (env : Env) (app : App) (s : Sock) :
+    (∀ op, (Sock.api env app s op).alive = s.alive) ∧
+    (∀ e, e ≠ .turn → (Sock.step env app s e).alive = s.alive) ∧
+    (∀ l, (FsHandler.relay env app s l).alive = s.alive) :=
+  ⟨fun op => (api_ext env app s op).1.al, fun e he => (step_extE env app s e he).1.al,
+   fun l => (relay_extE env app l s).1.al⟩
+
+/-- the scheduled deletion stays scheduled under every step of the composed model that is not
+    an event-loop turn -/
+theorem delPending_stays (env : Env) (fe : FsHandler.FsEnv) (st : Life.St) (ev : Life.LEv)
+    (hev : ev ≠ .ev .turn) (h : st.fs.sock.delPending = true) :
+    (Life.step env fe st ev).fs.sock.delPending = true := by
+  cases ev with
+  | ev e => exact lifeStep_keeps env fe st e (fun he => hev (by rw [he])) h
+  | killServer =>
+    unfold Life.step
+    dsimp only
+    split
+    · exact h
+    · exact h
+
+/-! ### 3. the event loop performs the deletion -/
+
+theorem turn_deletes (env : Env) (fe : FsHandler.FsEnv) (st : Life.St) (hs : st.deadSrv = false)
+    (ha : st.fs.sock.alive = true) (hd : st.fs.sock.delPending = true) :
+    (Life.step env fe st (.ev .turn)).fs.sock.alive = false :=
+  lifeStep_turn_deletes env fe st hs ha hd
+
+/-- on reachable states the Server is there whenever the socket is -/
+theorem turn_deletes_run (env : Env) (fe : FsHandler.FsEnv) (evs : List Life.LEv)
+    (hd : (Life.run env fe evs).fs.sock.delPending = true) :
+    (Life.step env fe (Life.run env fe evs) (.ev .turn)).fs.sock.alive = false := by
+  cases ha : (Life.run env fe evs).fs.sock.alive
+  · exact dead_stays_dead env fe _ _ ha
+  · cases hs : (Life.run env fe evs).deadSrv
+    · exact turn_deletes env fe _ hs ha hd
+    · have := (run_inv env fe evs).ds hs
+      rw [ha] at this
+      exact absurd this (by simp)
+
+/-! ### 4. released: one event-loop turn after `disconnected` nothing per-connection is left -/
+
+/-- the invariant behind it: in every reachable state, a live socket whose transport reported
+    `disconnected` has its deletion scheduled -/
+theorem dc_implies_delPending (env : Env) (fe : FsHandler.FsEnv) (evs : List Life.LEv)
+    (ha : (Life.run env fe evs).fs.sock.alive = true)
+    (hdc : Obs.dc ∈ (Life.run env fe evs).fs.sock.log) :
+    (Life.run env fe evs).fs.sock.delPending = true :=
+  (run_inv env fe evs).dl ha hdc
+
+theorem released (env : Env) (fe : FsHandler.FsEnv) (evs : List Life.LEv)
+    (hdc : Obs.dc ∈ (Life.run env fe evs).fs.sock.log) :
+    Life.live (Life.step env fe (Life.run env fe evs) (.ev .turn)) = 0 := by
+  have hal : (Life.step env fe (Life.run env fe evs) (.ev .turn)).fs.sock.alive = false := by
+    cases ha : (Life.run env fe evs).fs.sock.alive
+    · exact dead_stays_dead env fe _ _ ha
+    · exact turn_deletes_run env fe evs (dc_implies_delPending env fe evs ha hdc)
+  simp [Life.live, hal]
+
+/-- destroying the Server releases the connection at once, whatever state it is in -/
+theorem killServer_releases (env : Env) (fe : FsHandler.FsEnv) (st : Life.St) :
+    Life.live (Life.step env fe st .killServer) = 0 := by
+  cases hs : st.deadSrv <;> simp [Life.live, Life.step, hs]
+
+/-- nothing comes back: once no per-connection object is left, none appears -/
+theorem live_zero_stays (env : Env) (fe : FsHandler.FsEnv) (st : Life.St) (ev : Life.LEv)
+    (h : Life.live st = 0) : Life.live (Life.step env fe st ev) = 0 := by
+  cases hs : st.deadSrv
+  · have ha : st.fs.sock.alive = false := by
+      cases hx : st.fs.sock.alive
+      · rfl
+      · simp [Life.live, hs, hx] at h
+    simp [Life.live, dead_stays_dead env fe st ev ha]
+  · rw [lifeStep_deadSrv env fe st ev hs]; exact h
+
+/-! ### 5. `disconnected` is reported at most once -/
+
+/-- C19's counting invariant carried through the composed model (copier relay, Server glue,
+    Server destruction).  Hypothesis, as in C19: API calls made from idle context do not `note` an
+    observation that is counted (`C10L.lifeEvOK`: `C19L.evOK` on socket-level events); the
+    application is `FsHandler.app fe`, which notes nothing. -/
+theorem dc_at_most_once (env : Env) (fe : FsHandler.FsEnv) (evs : List Life.LEv)
+    (h : evs.all lifeEvOK = true) :
+    Obs.countP Obs.isDc (Life.run env fe evs).fs.sock.log ≤ 1 :=
+  DS_final (run_D env fe evs h)
+
+/-- the same for the filesystem handler alone -/
+theorem dc_at_most_once_fs (env : Env) (fe : FsHandler.FsEnv) (evs : List Event)
+    (h : evs.all C19L.evOK = true) :
+    Obs.countP Obs.isDc (FsHandler.run env fe evs).sock.log ≤ 1 := by
+  apply DS_final
+  unfold FsHandler.run
+  have key : ∀ (evs : List Event) (st : FsHandler.St), evs.all C19L.evOK = true → DS 0 st.sock →
+      DS 0 (evs.foldl (FsHandler.step env fe) st).sock := by
+    intro evs
+    induction evs with
+    | nil => exact fun _ _ h => h
+    | cons e evs ih =>
+      intro st hall h
+      simp only [List.all_cons, Bool.and_eq_true] at hall
+      exact ih _ hall.2 (fsStep_D env fe st e hall.1 h)
+  refine key evs _ h ⟨?_, rfl⟩
+  unfold D
+  rfl
+
+/-- so "the number of `dc` grew during the event" (`dc_schedules_deletion`) happens at most once
+    per connection, and `Life.dcCount` is 0 or 1 -/
+theorem dcCount_le_one (env : Env) (fe : FsHandler.FsEnv) (evs : List Life.LEv)
+    (h : evs.all lifeEvOK = true) : Life.dcCount (Life.run env fe evs).fs.sock ≤ 1 :=
+  dc_at_most_once env fe evs h
+
+/-! ### 6. a file copy in progress is stopped by `disconnected` -/
+
+/-- if, after the socket-level part of an event during which `disconnected` was reported, the
+    socket is still there and a copier exists that has not signalled `finished` (and was not
+    stopped before), then the Server glue stops it: `stopped` is recorded, the copier's state is
+    `Copier.stop cs` (its `stopped` flag is set), `Socket::close` was called, and the deletion
+    of the socket is scheduled -/
+theorem copy_stopped_on_disconnect (env : Env) (fe : FsHandler.FsEnv) (st : Life.St) (e : Event)
+    (cfg : Copier.Cfg) (cs : Copier.St) (hs : st.deadSrv = false) (hst : st.stopped = false)
+    (ha : (FsHandler.step env fe st.fs e).sock.alive = true)
+    (hdc : Life.dcCount (FsHandler.step env fe st.fs e).sock ≠ Life.dcCount st.fs.sock)
+    (hc : (FsHandler.step env fe st.fs e).cop = some (cfg, cs)) (hf : copFinished cs = false) :
+    (Life.step env fe st (.ev e)).stopped = true ∧
+    (Life.step env fe st (.ev e)).fs.cop = some (cfg, Copier.stop cs) ∧
+    (Copier.stop cs).stopped = true ∧
+    (Life.step env fe st (.ev e)).fs.sock.closeCalled = true ∧
+    (Life.step env fe st (.ev e)).fs.sock.delPending = true ∧
+    (Life.step env fe st (.ev e)).fs.sock.alive = true := by
+  rw [lifeStep_ev env fe st e hs,
+    afterEvent_stops env fe _ { st with fs := FsHandler.step env fe st.fs e } cfg cs ha hdc hc hf hst]
+  refine ⟨rfl, rfl, rfl, api_close_cc env _ _ ha, (api_ext env _ _ _).1.dp rfl, ?_⟩
+  exact (api_ext env _ _ _).1.al.trans ha
+
+/-- in every reachable state, `stopped` means: there is a copier, its `stopped` flag is set, and
+    `Socket::close` was called -/
+theorem stopped_means_stopped (env : Env) (fe : FsHandler.FsEnv) (evs : List Life.LEv)
+    (h : (Life.run env fe evs).stopped = true) :
+    ∃ cfg cs, (Life.run env fe evs).fs.cop = some (cfg, cs) ∧ cs.stopped = true ∧
+      (Life.run env fe evs).fs.sock.closeCalled = true :=
+  (run_sinv env fe evs).sp h
+
+/-- state form of C14's `stop_halts` for the way the composed model drives the copier (one
+    `Copier.step … .turn` per event-loop turn): a stopped copier hands nothing more to the
+    destination, signals nothing, and stays stopped -/
+theorem stopped_copier_silent (cfg : Copier.Cfg) (cs : Copier.St) (h : cs.stopped = true) :
+    (Copier.step cfg cs .turn).log = cs.log ∧ (Copier.step cfg cs .turn).stopped = true :=
+  copier_stopped_turn cfg cs h
+
+/-- hence, from a reachable stopped state on, no event-loop turn relays a copier write to the
+    socket: the copier part of the turn (`C10L.turnCop`, see `C10L.fsTurn_eq`) leaves the
+    socket as it is — for the state reached and, since `stopped` persists, for all later ones -/
+theorem stopped_relays_nothing (env : Env) (fe : FsHandler.FsEnv) (evs : List Life.LEv) (a : App)
+    (h : (Life.run env fe evs).stopped = true) (sock : Sock) :
+    (turnCop env a { (Life.run env fe evs).fs with sock := sock }).sock = sock := by
+  obtain ⟨cfg, cs, h1, h2, _⟩ := stopped_means_stopped env fe evs h
+  exact turnCop_stopped env a _ cfg cs h1 h2
+
+theorem stopped_persists (env : Env) (fe : FsHandler.FsEnv) (st : Life.St) (ev : Life.LEv)
+    (h : st.stopped = true) : (Life.step env fe st ev).stopped = true := by
+  cases hd : st.deadSrv
+  · cases ev with
+    | ev e =>
+      rw [lifeStep_ev env fe st e hd]
+      unfold Life.afterEvent
+      dsimp only
+      split
+      · exact h
+      · split
+        · split
+          · exact h
+          · rfl
+        · exact h
+    | killServer => simp [Life.step, hd, h]
+  · rw [lifeStep_deadSrv env fe st ev hd]; exact h
+
+/-! ### 7. the harness' closing sequence: both sides closed, then event-loop turns -/
+
+theorem live_zero_foldl (env : Env) (fe : FsHandler.FsEnv) (evs : List Life.LEv) (st : Life.St)
+    (h : Life.live st = 0) : Life.live (evs.foldl (Life.step env fe) st) = 0 := by
+  induction evs generalizing st with
+  | nil => exact h
+  | cons ev evs ih => exact ih _ (live_zero_stays env fe st ev h)
+
+/-- after the peer's close, the first event-loop turn releases the connection — whatever the
+    history before (`evs`), whatever happens in between (`mid`) and afterwards (`more`);
+    no assumption on the scenario: the socket need not even have been constructed -/
+theorem released_after_peerClose (env : Env) (fe : FsHandler.FsEnv) (evs mid more : List Life.LEv) :
+    Life.live (Life.run env fe (evs ++ .ev .peerClose :: (mid ++ .ev .turn :: more))) = 0 := by
+  unfold Life.run
+  rw [List.foldl_append, List.foldl_cons, List.foldl_append, List.foldl_cons]
+  apply live_zero_foldl
+  have h1 : Closing (List.foldl (Life.step env fe)
+      (Life.step env fe (List.foldl (Life.step env fe) {} evs) (.ev .peerClose)) mid) :=
+    Closing.foldl env fe mid (Closing.peerClose env fe (run_inv env fe evs))
+  simp [Life.live, h1.turn env fe]
+
+/-- what the harness appends to every scenario of the `life` family -/
+def closeDown : List Life.LEv := [.ev .peerClose, .ev .ackAll, .ev .turn, .ev .turn]
+
+/-- model-side counterpart of `holds` (`misc 30 [0]`): after the closing sequence no
+    per-connection object is left, for every event list -/
+theorem quiescent (env : Env) (fe : FsHandler.FsEnv) (evs : List Life.LEv) :
+    Life.live (Life.run env fe (evs ++ closeDown)) = 0 :=
+  released_after_peerClose env fe evs [.ev .ackAll] [.ev .turn]
+
+/-- the driver runs the closing events without their markers (`C10L.quietStep`), four turns -/
+def driverTail : List Life.LEv :=
+  [.ev .peerClose, .ev .ackAll, .ev .turn, .ev .turn, .ev .turn, .ev .turn]
+
+theorem live_quietStep (env : Env) (fe : FsHandler.FsEnv) (st : Life.St) (e : Life.LEv) :
+    Life.live (quietStep env fe st e) = Life.live (Life.step env fe st e) := rfl
+
+theorem quiescent_driver (env : Env) (fe : FsHandler.FsEnv) (evs : List Life.LEv) :
+    Life.live (driverTail.foldl (quietStep env fe) (Life.run env fe evs)) = 0 := by
+  have h1 := Closing.quietPeerClose env fe (run_inv env fe evs)
+  have h2 := h1.quietStep env fe (.ev .ackAll)
+  have h3 : Life.live (quietStep env fe (quietStep env fe (quietStep env fe (Life.run env fe evs)
+      (.ev .peerClose)) (.ev .ackAll)) (.ev .turn)) = 0 := by
+    rw [live_quietStep]
+    simp [Life.live, h2.turn env fe]
+  simp only [driverTail, List.foldl_cons, List.foldl_nil]
+  rw [live_quietStep]; apply live_zero_stays
+  rw [live_quietStep]; apply live_zero_stays
+  rw [live_quietStep]; apply live_zero_stays
+  exact h3
+
+/-- observations the model never makes by itself (only an application `note` could) -/
+def cleanObs : Obs → Bool
+  | .crash => false
+  | .misc 30 _ => false
+  | .misc 31 _ => false
+  | _ => true
+
+theorem liveOf_clean (l : List Obs) (h : l.all cleanObs = true) (n : UInt8) :
+    liveOf (l ++ [Obs.misc 30 [n], Obs.misc 31 [0]]) = some n.toNat := by
+  unfold liveOf
+  rw [List.findSome?_append]
+  have : l.findSome? (fun o => match o with | .misc 30 [n] => some n.toNat | _ => none) = none := by
+    rw [List.findSome?_eq_none_iff]
+    intro o ho
+    have := List.all_eq_true.mp h o ho
+    split
+    · simp [cleanObs] at this
+    · rfl
+  rw [this]
+  rfl
+
+theorem fdOf_clean (l : List Obs) (h : l.all cleanObs = true) (n : UInt8) :
+    fdOf (l ++ [Obs.misc 30 [n], Obs.misc 31 [0]]) = some 0 := by
+  unfold fdOf
+  rw [List.findSome?_append]
+  have : l.findSome? (fun o => match o with | .misc 31 [n] => some n.toNat | _ => none) = none := by
+    rw [List.findSome?_eq_none_iff]
+    intro o ho
+    have := List.all_eq_true.mp h o ho
+    split
+    · simp [cleanObs] at this
+    · rfl
+  rw [this]
+  rfl
+
+/-- the executable predicate on the model's own observation list, as the driver builds it
+    (the body's history, then the live-object count after the unmarked closing events, then the
+    descriptor count, which the model does not have: `0`).
+    Hypothesis: nobody `note`d a `crash` or a counter into the history (the model itself never
+    does; it is a decidable check on the run). -/
+theorem holds_model (env : Env) (fe : FsHandler.FsEnv) (evs : List Life.LEv)
+    (hclean : (Life.run env fe evs).fs.sock.log.all cleanObs = true) :
+    holds ((Life.run env fe evs).fs.sock.log ++
+      [Obs.misc 30 [UInt8.ofNat (Life.live (driverTail.foldl (quietStep env fe) (Life.run env fe evs)))],
+       Obs.misc 31 [0]]) = true := by
+  rw [quiescent_driver]
+  unfold holds
+  rw [liveOf_clean _ hclean, fdOf_clean _ hclean]
+  have : ((Life.run env fe evs).fs.sock.log ++ [Obs.misc 30 [UInt8.ofNat 0], Obs.misc 31 [0]]).any
+      Obs.isCrash = false := by
+    rw [List.any_append]
+    have : (Life.run env fe evs).fs.sock.log.any Obs.isCrash = false := by
+      rw [List.any_eq_false]
+      intro o ho
+      have := List.all_eq_true.mp hclean o ho
+      cases o <;> simp [cleanObs, Obs.isCrash] at this ⊢
+    rw [this]; rfl
+  rw [this]
+  decide
+
+/-! ### non-vacuity -/
+
+def exEnv : Env := { url := fun p => some (p, []), errPage := fun _ _ => [60, 62] }
+def exFe : FsHandler.FsEnv :=
+  { root := lit ['/','r'], tree := [([lit ['r']], .dir), ([lit ['r'], lit ['f']], .file)],
+    content := fun _ => lit ['h','e','l','l','o'],
+    mime := fun _ => lit ['t','/','p'],
+    listing := fun _ _ => [] }
+def exReq : Bytes := lit ['G','E','T',' ','/','f',' ','H','T','T','P','/','1','.','1','\r','\n','\r','\n']
+
+/-- the file is served, the client goes away before acknowledging: `dc` is reported -/
+def exEvs : List Life.LEv := [.ev .new, .ev (.feed exReq), .ev .turn, .ev .turn, .ev .peerClose]
+
+-- `released` applies: the hypothesis holds, the socket is alive before the turn, dead after
+example : Obs.dc ∈ (Life.run exEnv exFe exEvs).fs.sock.log := by decide +kernel
+example : Life.live (Life.run exEnv exFe exEvs) = 1 ∧
+    (Life.run exEnv exFe exEvs).fs.sock.delPending = true ∧
+    Life.live (Life.step exEnv exFe (Life.run exEnv exFe exEvs) (.ev .turn)) = 0 := by decide +kernel
+-- `dc_schedules_deletion`: the last event of `exEvs` is one during which `dc` is reported
+example :
+    let st := Life.run exEnv exFe (exEvs.take 4)
+    (Life.step exEnv exFe st (.ev .peerClose)).fs.sock.alive = true ∧
+    Life.dcCount (Life.step exEnv exFe st (.ev .peerClose)).fs.sock ≠ Life.dcCount st.fs.sock ∧
+    st.fs.sock.delPending = false := by decide +kernel
+-- `dead_is_inert`: a destroyed socket exists and later events leave it as it is
+example :
+    let st := Life.run exEnv exFe (exEvs ++ [.ev .turn])
+    st.fs.sock.alive = false ∧ Obs.del ∈ st.fs.sock.log ∧
+    (Life.step exEnv exFe st (.ev (.api (.write [65])))).fs.sock.log = st.fs.sock.log := by
+  decide +kernel
+-- the Server destroyed with the request in flight
+example : Life.live (Life.run exEnv exFe [.ev .new, .ev (.feed exReq)]) = 1 ∧
+    Life.live (Life.run exEnv exFe [.ev .new, .ev (.feed exReq), .killServer]) = 0 := by
+  decide +kernel
+
+-- `dc_at_most_once`: the hypothesis holds for the example (and for every scenario of the `life`
+-- family, whose tokens have no `note`), a late second close of the peer changes nothing
+def exEvs2 : List Life.LEv := exEvs ++ [.ev .peerClose, .ev (.api .close), .ev .ackAll]
+example : exEvs2.all lifeEvOK = true := by decide
+example : Life.dcCount (Life.run exEnv exFe exEvs2).fs.sock = 1 := by decide +kernel
+-- `copy_stopped_on_disconnect`: the request is routed, the copier started and not yet run when
+-- the client goes away; all hypotheses hold, and so does the conclusion
+example :
+    let st := Life.run exEnv exFe [.ev .new, .ev (.feed exReq)]
+    let fs1 := FsHandler.step exEnv exFe st.fs .peerClose
+    st.deadSrv = false ∧ st.stopped = false ∧ fs1.sock.alive = true ∧
+    Life.dcCount fs1.sock ≠ Life.dcCount st.fs.sock ∧
+    fs1.cop.map (fun p => copFinished p.2) = some false ∧
+    (Life.step exEnv exFe st (.ev .peerClose)).stopped = true ∧
+    (Life.step exEnv exFe st (.ev .peerClose)).fs.sock.closeCalled = true := by decide +kernel
+-- the closing sequence on a request in flight (file being streamed): alive before, gone after
+example : Life.live (Life.run exEnv exFe [.ev .new, .ev (.feed exReq)]) = 1 ∧
+    Life.live (Life.run exEnv exFe ([.ev .new, .ev (.feed exReq)] ++ closeDown)) = 0 := by
+  decide +kernel
+-- `holds_model`: its hypothesis holds on a concrete run, and `holds` evaluates to true
+example : (Life.run exEnv exFe exEvs).fs.sock.log.all cleanObs = true := by decide +kernel
+example : holds ((Life.run exEnv exFe exEvs).fs.sock.log ++
+    [Obs.misc 30 [UInt8.ofNat (Life.live (driverTail.foldl (quietStep exEnv exFe) (Life.run exEnv exFe exEvs)))],
+     Obs.misc 31 [0]]) = true := by decide +kernel
 
 end Qhttp.C10
